@@ -1,7 +1,7 @@
 (* Model-side execution of a schedule (C18) and the checkers on the
    implementation's observations. *)
 From RS Require Import Base.Prelude Base.Text Rope.RopeModel Stream.Types Stream.Replace Stream.Tree
-  Stream.Leaves Sem.ReplaceObj Sem.Conc Api.ApiTree Api.ApiHist Checkers.ChkTree Checkers.ChkHist.
+  Stream.Leaves Sem.ReplaceObj Sem.Conc Sem.ConcLock Api.ApiTree Api.ApiHist Checkers.ChkTree Checkers.ChkHist.
 
 Definition empty_insert : repl := mkRepl 0 0 [] None 1.
 
@@ -80,3 +80,29 @@ Definition chk_C18_cached (inner : src) (progs : list (list cop)) (answers : lis
   if negb (forallb ok_thread (combine progs answers)) then (if k2_shape inner then 52 else 1)
   else if negb (write_once_from [] hist) then 2
   else 0.
+
+(* the same programs with the critical section of the stream fill path visible (Sem/ConcLock.v) *)
+Definition api_sched_locked (inner : src) (progs : list (list cop)) (sched : list N)
+  : list (list answer * list N) * list (list (N * N)) :=
+  let '(sh, ts, hist) := locked_run true progs sched in
+  let opts_of (k : N) := mkOpts ((k =? 0) || (k =? 2)) (2 <=? k) in
+  let entry_value (k id : N) : option smap :=
+    if existsb (N.eqb id) (cs_by_stream (ls_c sh))
+    then map_of_events (columns (opts_of k)) (fst (fst (stream [] inner (opts_of k))))
+    else fst (map_of [] inner (k =? 0)) in
+  let answer (o : cop) (id : N) (fill : bool) : answer :=
+    match o with
+    | CopMap k => AMap (entry_value k id)
+    | CopStream k =>
+      if fill then let '(evs, gi, _) := stream [] inner (opts_of k) in AStream evs gi
+      else match entry_value k id with
+           | Some m => let '(evs, gi) := sm_stream (source inner) m (opts_of k) in AStream evs gi
+           | None => let '(evs, gi) := raw_stream (source inner) (final_source (opts_of k)) in AStream evs gi
+           end
+    end in
+  (map (fun (p : list cop * lthread) =>
+          (map (fun x => answer (fst (fst x)) (snd (fst x)) (snd x))
+               (combine (combine (fst p) (lt_served (snd p))) (lt_fill (snd p))),
+           lt_trace (snd p)))
+       (combine progs ts),
+   hist).
